@@ -324,6 +324,11 @@ func (s *Scheme) runDKG(ctx context.Context, membership *membership, dkgProtocol
 		verifPoint("dkg.afterInit")
 
 		s.lock.Lock()
+		// Do not register anything for a session that is already over
+		if ctx.Err() != nil {
+			s.lock.Unlock()
+			return
+		}
 		_, rbcExisted := s.rbcInProgress[string(dkgTopicHash)]
 		s.rbcInProgress[string(dkgTopicHash)] = rbc.Receive
 		s.lock.Unlock()
@@ -494,7 +499,7 @@ func (s *Scheme) Sign(c context.Context, msgHash []byte, topic string) ([]byte, 
 
 		start2 := time.Now()
 
-		signingProtocol, err := s.prepareSigning(membership, partyIDs, topicHash, UIntsToUniversalIDs(signers))
+		signingProtocol, err := s.prepareSigning(ctx, membership, partyIDs, topicHash, UIntsToUniversalIDs(signers))
 		if err != nil {
 			s.Logger.Errorf("Failed initializing signing instance: %v", err)
 			return
@@ -513,6 +518,10 @@ func (s *Scheme) Sign(c context.Context, msgHash []byte, topic string) ([]byte, 
 		})
 
 		s.lock.Lock()
+		if ctx.Err() != nil {
+			s.lock.Unlock()
+			return
+		}
 		s.syncsInProgress[string(syncTopic)] = sync.HandleMessage
 		s.lock.Unlock()
 
@@ -617,7 +626,7 @@ func (s *Scheme) initializeSyncForSigning(topic string, topicHash []byte, member
 	return sync, nil
 }
 
-func (s *Scheme) prepareSigning(membership *membership, parties []PartyID, topicHash []byte, signers []UniversalID) (Signer, error) {
+func (s *Scheme) prepareSigning(ctx context.Context, membership *membership, parties []PartyID, topicHash []byte, signers []UniversalID) (Signer, error) {
 	signingProtocol, err := s.initializeThresholdSigning(membership, parties, topicHash, signers)
 	if err != nil {
 		return nil, err
@@ -641,6 +650,12 @@ func (s *Scheme) prepareSigning(membership *membership, parties []PartyID, topic
 	}
 
 	s.lock.Lock()
+
+	// Do not register anything for a session that is already over
+	if ctx.Err() != nil {
+		s.lock.Unlock()
+		return nil, ctx.Err()
+	}
 
 	_, rbcExisted := s.rbcInProgress[string(topicHash)]
 	s.rbcInProgress[string(topicHash)] = rbc.Receive
